@@ -413,7 +413,7 @@ func checkRunTrace(ic *IC, ex *exec.Exec, repo *Repo, f *runFlags, failed bool, 
 			ex.Pass("C17: failing run leaves the -out file untouched")
 		}
 	} else {
-		ex.Oblige(c.Implies(hasOut, c.BoolC(state == "new")), "C17: successful run with -out leaves the complete new file")
+		ex.Oblige(c.Implies(hasOut, c.BoolC(state == "new")), "C17/C16/C15: successful run with -out leaves the complete new file")
 		ex.Oblige(c.Implies(c.Not(hasOut), c.BoolC(state == "old" && len(stdw) == 1)), "C17: successful run without -out writes the output once to stdout and touches no file")
 	}
 }
